@@ -72,6 +72,7 @@ fn thr_gen_cfg(rng: &mut Rng, legacy: bool) -> GenCfg {
         render: rng.chance(1, 4),
         channels: rng.chance(1, 4),
         cap_in_cmd: false,
+        bursts: false,
     }
 }
 
@@ -184,11 +185,27 @@ impl ThrCheck {
             strip_takes(&mut c);
             programs.push(c);
         }
+        if prng.chance(1, 4) {
+            // the shape C08 is about, made common: one task waiting on several requests at once, which
+            // different threads will answer (old or new API; each branch reports when it got its answer)
+            use crate::cmd::ast::{Leaf, OpKind, Stmt, Task};
+            let base = 9000u32;
+            let n = prng.range(2, 3) as u32;
+            let branches: Vec<Task> = (0..n)
+                .map(|k| Task {
+                    label: base + 10 + k,
+                    stmts: vec![Stmt::Request(Leaf { site: base + 20 + k, op: OpKind::A }), Stmt::Emit { tag: base + 30 + k, cont: None }],
+                })
+                .collect();
+            let t = Task { label: base, stmts: vec![Stmt::JoinAll(branches)] };
+            programs.insert(0, if legacy && prng.chance(2, 3) { Cmd::Legacy(t) } else { Cmd::Async(t) });
+        }
         let sc = ScriptCfg {
             max_steps: crng.range(1, 8) as u32,
             max_batch: 1,
             drops: false,
             bridge_drops: false,
+            bad_items: false,
             dups: false,
             aborts: false,
             noops: false,
@@ -293,12 +310,44 @@ impl ThrCheck {
         preempt_at.sort();
         preempt_at.dedup_by_key(|p| p.0);
 
+        // ... and, in half of the runs, one or two more at early occurrences of named points (where
+        // threads actually meet: lock acquisitions, the waker's publish/notify steps, the eviction test)
+        const MEETING_POINTS: &[&str] = &[
+            "mutex.lock",
+            "mutex.lock",
+            "mutex.lock",
+            "cmd.wake.before_send",
+            "cmd.wake.after_send",
+            "cmd.wake.after_store",
+            "cmd.run_task.after_poll",
+            "cmd.run_task.between_reads",
+            "core.process.before_lock",
+            "core.process.before_drain",
+            "core.process_event.after_update",
+            "core.resolve.entry",
+            "exec.run_task.taken",
+            "exec.run_task.pending",
+            "exec.run_task.completed",
+            "exec.run_all.ready",
+            "exec.run_all.spawned",
+            "app.update.inside",
+            "app.view.inside",
+        ];
+        let mut at_point: Vec<(String, u32, u8)> = vec![];
+        if xrng.chance(1, 2) {
+            for _ in 0..xrng.range(1, 2) {
+                let name = *xrng.pick(MEETING_POINTS);
+                let k = if xrng.chance(2, 3) { xrng.below(6) } else { xrng.below(30) } as u32;
+                at_point.push((name.to_string(), k, xrng.below(250) as u8));
+            }
+        }
+
         let mut scn = ThrScn {
             host,
             prologue,
             threads,
             epilogue: vec![],
-            schedule: Schedule { preempt_at },
+            schedule: Schedule { preempt_at, at_point },
             hash_seed: xrng.next_u64(),
         };
         scn.epilogue = epilogue_for(&scn);
@@ -807,6 +856,11 @@ impl Check for ThrCheck {
         for i in 0..s.schedule.preempt_at.len() {
             let mut sc = s.schedule.clone();
             sc.preempt_at.remove(i);
+            out.push(ThrScn { schedule: sc, ..s.clone() });
+        }
+        for i in 0..s.schedule.at_point.len() {
+            let mut sc = s.schedule.clone();
+            sc.at_point.remove(i);
             out.push(ThrScn { schedule: sc, ..s.clone() });
         }
         // drop thread operations
